@@ -692,6 +692,10 @@ static void checkConfiguration(World& w, int i, const Op& op, const Obs& before,
 						const int rq = reqBeforeLast[size_t(path[lv].first)];     // what the request slot holds by now (later requests override earlier ones level by level)
 						if ((rq < 0 || rq == path[lv].second) && cb.active[size_t(path[lv].first)] == path[lv].second) { stop = int(lv); break; }
 					}
+					// the slot the library sees may differ from the model's (requests the library ignores or resolves differently inside the batch): an ancestor whose
+					// current sub-state lies on the path is a possible stopping point whatever the model thinks its slot holds
+					if (stop < 0) for (size_t lv = 1; lv < path.size(); ++lv) if (cb.active[size_t(path[lv].first)] == path[lv].second) { stop = int(lv); break; }
+					if (getenv("VF_DEBUG_MODEL")) { fprintf(stderr, "model: P1 tag: stop=%d path=", stop); for (auto& pc : path) fprintf(stderr, "(%d,%d rq=%d act=%d) ", pc.first, pc.second, reqBeforeLast[size_t(pc.first)], cb.active[size_t(pc.first)]); fprintf(stderr, "\n"); }
 					if (stop >= 0) for (size_t lv = size_t(stop) + 1; lv < path.size(); ++lv) if (setOtherwise(lv)) tag = "batch_later_request_not_overriding";
 					bool earlierUtility = false; for (int k2 = 0; k2 < lastReal; ++k2) if (st.approved[size_t(k2)].kind == K_UTILIZE || st.approved[size_t(k2)].kind == K_RANDOMIZE) earlierUtility = true;
 					if (tag.empty() && (earlierUtility || sh.usesUtility)) { for (auto& pc : path) if (reqBeforeLast[size_t(pc.first)] >= 0 && howBeforeLast[size_t(pc.first)] != 100) tag = "batch_later_request_not_overriding"; }
@@ -733,7 +737,10 @@ static void checkConfiguration(World& w, int i, const Op& op, const Obs& before,
 				if (stop >= 0) for (size_t lv = size_t(stop) + 1; lv < path.size(); ++lv) if (path[lv].first == g) climbStopped = true;
 			}
 			const int gpar = sh.st[size_t(g)].parent;
-			const bool namedActiveUnderOrtho = lastReal >= 0 && st.approved[size_t(lastReal)].dest == g && gpar >= 0 && sh.isOrtho(gpar) && cb.active[size_t(g)] >= 0;
+			// a request of the batch names an active region directly below an orthogonal region above g: the library ignores it (documented), the model applied it
+			bool belowIgnoredNamed = false;
+			for (auto& q : st.approved) { const int d = q.dest; if (q.kind == K_SCHEDULE || d < 0 || d >= sh.n || !sh.isCompo(d) || !sh.inSubtree(g, d)) continue; const int dp = sh.st[size_t(d)].parent; if (dp >= 0 && sh.isOrtho(dp) && cb.active[size_t(d)] >= 0) belowIgnoredNamed = true; }
+			const bool namedActiveUnderOrtho = belowIgnoredNamed || lastReal >= 0 && st.approved[size_t(lastReal)].dest == g && gpar >= 0 && sh.isOrtho(gpar) && cb.active[size_t(g)] >= 0;
 			w.violate(oracle, b, i, namedActiveUnderOrtho ? "active_region_under_ortho_not_retargeted" : climbStopped ? "batch_later_request_not_overriding" : ((earlierResolved || earlierEvaluated) && r.how[size_t(g)] != 100 ? "batch_later_request_not_overriding" : "")); return;
 		}
 		// a destination region that is already active below an orthogonal parent is not re-targeted by the library (documented)
@@ -747,7 +754,7 @@ static void checkConfiguration(World& w, int i, const Op& op, const Obs& before,
 			const int dp = sh.st[size_t(d)].parent;
 			if (dp < 0 || !sh.isOrtho(dp) || cb.active[size_t(d)] < 0) continue;
 			bool same = true; for (int x = d; x < d + sh.st[size_t(d)].size; ++x) if (sh.isCompo(x) && ca.active[size_t(x)] != cb.active[size_t(x)]) same = false;
-			if (same) tag = "active_region_under_ortho_not_retargeted";
+			if (same || nReal > 1) tag = "active_region_under_ortho_not_retargeted";
 		}
 		// documented: a later request of the batch is forwarded through every orthogonal region both paths share into the branches earlier requests marked;
 		// an orthogonal region entered as a whole by an earlier request has no marks of its own, so everything below it is resolved again - by the later request's kind
